@@ -180,6 +180,20 @@ def accounting_oracle(case, obs):
             s = score[(e, g)][1]
             if s is None or not (F(s) < F(t)):
                 return f"TP ({e},{g}) has pass/fail score {s}, not better than the threshold {t} of its ground truth's label"
+    # 4b. documented meaning of a match with an FP-labelled ground truth (is_result_correct: "Return False, if label
+    #     of GT is FP and matching"): hit better than the threshold -> matched FP; missed / no threshold -> TN
+    for e, g in surv:
+        if g is None or not gf[g]["is_fp"]:
+            continue
+        hit = False
+        if thr_targets is not None and thr_list is not None and gf[g]["lid"] in thr_targets:
+            t = thr_list[thr_targets.index(gf[g]["lid"])]
+            s = score[(e, g)][1]
+            hit = s is not None and F(s) < F(t)
+        if hit and [e, g] not in fp:
+            return f"estimate {e} hits the FP-labelled ground truth {g} (score better than its threshold) but is not reported as its matched FP"
+        if not hit and (g not in tn or [e, None] not in fp):
+            return f"estimate {e} misses the FP-labelled ground truth {g} but the ground truth is not TN / the estimate not a GT-less FP"
     # 5. success / fail counts
     if obs["num_success"] != len(tp) + len(tn) or obs["num_fail"] != len(fp) + len(fn):
         return f"num_success/num_fail = {obs['num_success']}/{obs['num_fail']} but TP,TN,FP,FN = {len(tp)},{len(tn)},{len(fp)},{len(fn)}"
